@@ -201,7 +201,7 @@ func TestVerifC19_FieldClear(t *testing.T) {
 			t.Fatalf("quantum %s noStandardView=%v after %s: %v", q, noStd, strings.Join(hist, " "), err)
 		}
 		c.Key("c19f", q, noStd, hist)
-		c.Class("q:" + string(q)).ClassIf(noStd, "noStandardView").ClassIf(nt, "interleavedViews").ClassIf(clears >= 2, "severalClears")
+		c.Class("q:"+string(q)).ClassIf(noStd, "noStandardView").ClassIf(nt, "interleavedViews").ClassIf(clears >= 2, "severalClears")
 		c.NT(nt)
 		c.Sample(map[string]interface{}{"q": q, "noStandardView": noStd, "history": strings.Join(hist, " ")})
 	})
